@@ -22,9 +22,11 @@ import Tuc.Model.Args
   `Tuc.Model.Args`, proved equal to the property's `conflict` list in `Tuc.Props.C19`.
 
 Canonical = every option at most once, spelled with its first key (`-d`, `--json`), the value as a
-separate argument, values and stray arguments not starting with `-`.  Everything else pico_args
-accepts (glued values, `=`, clusters, repeated options, values that look like options) is covered
-by the differential test only.
+separate argument, values and stray arguments not starting with `-`.  The last section lifts the
+restriction for the values of `-f -c -b -l` (`-1=hello`, `-2:-1`; `parseArgv_canonB` and friends):
+`parse_args` consumes them before it looks for `-h`, so their letters cannot be taken for a flag.
+Everything else pico_args accepts (glued values, `=`, clusters, repeated options, other values
+that look like options) is covered by the differential test only.
 -/
 namespace Tuc
 set_option linter.constructorNameAsVariable false
@@ -1227,11 +1229,12 @@ theorem strArg_isOk (v : Arg) : (strArg v).isOk = true := rfl
 
 macro "table_walk" Hf:term "," Hc:term "," Hb:term "," Hl:term "," HM:term "," Ht:term "," facts:Lean.Parser.Tactic.simpLemma,* : tactic => `(tactic| (
   unfold parseWith
-  simp only [ttest_bind, exitIf_bind, tflag_bind _ _ fid_help]
-  rw [tvalue_bind _ _ vid_f _ _ _ (by intro v hv; simp at hv; exact $Hf v hv)]
+  simp only [ttest_bind, exitIf_bind]
+  rw [tvalue_bind _ _ vid_f _ _ _ (by intro v hv; exact $Hf v hv)]
   rw [tvalue_bind _ _ vid_c _ _ _ (by intro v hv; simp at hv; exact $Hc v hv)]
   rw [tvalue_bind _ _ vid_b _ _ _ (by intro v hv; simp at hv; exact $Hb v hv)]
   rw [tvalue_bind _ _ vid_l _ _ _ (by intro v hv; simp at hv; exact $Hl v hv)]
+  simp only [tflag_bind _ _ fid_help, exitIf_bind]
   simp only [Table.clearVal_val, Table.clearFlag_val, $facts,*, reduceCtorEq, if_false, Option.bind_none,
     Option.bind_some, Res.toOption, Option.map_some, Option.isSome_none, Option.isSome_some,
     Bool.not_false, Bool.not_true, Bool.and_self, Bool.and_false, Bool.false_and, Bool.true_and, Bool.and_true,
@@ -2002,4 +2005,685 @@ example : parseArgv (fun _ => true)
 example : canonArgv { mode := .f, bounds := ['2'], d := some [':'], j := true, noJoin := true } =
     [['-', 'f'], ['2'], ['-', 'd'], [':'], ['-', 'j'], ['-', '-', 'n', 'o', '-', 'j', 'o', 'i', 'n']] := by
   decide +kernel
+
+/-! ## the help lookup comes AFTER the bounds values
+
+`parse_args` consumes the values of `-f`, `-c`, `-b`, `-l` before it looks for `-h` / `--help` (with
+pico_args' `combined-flags` the lookup of `-h` takes the first `h` of the first argument that starts
+with one `-`: a bounds value such as `-1=hello` would be taken for a cluster with `h`).  So:
+
+* `simB_parseWith` / `parseArgv_renderB` / `parseArgv_canonB` / `parseArgv_canonB_decision`: the
+  theorems `parseArgv_render`, `parseArgv_canon`, `parseArgv_canon_decision` hold for command lines
+  that are canonical EXCEPT that the values of `-f -c -b -l` may start with `-` (`WFB`: such a
+  value must only be invisible to the four bounds lookups themselves, `quietVal`);
+* `parseTable_help`, `parseTable_badBounds` (`parseArgv_canonB_help`, `parseArgv_canonB_badBounds`):
+  the precedence — a bounds value that does not parse is an error even with `-h`; `-h` prints the
+  help when the bounds values given parse;
+* `parseTable_congr`, `parseArgv_bounds_letters`: the answer depends on a bounds value only through
+  `UserBoundsList::from_str`, not on its letters;
+* the repaired command lines, by computation (`parseArgv_dash_value_f`, …).
+-/
+
+/-- `Sim` from the states that satisfy `I`; the states it goes on with satisfy `J` -/
+def SimI {σ₁ σ₂ α : Type} (h : σ₂ → σ₁) (I J : σ₂ → Prop) (m₁ : P σ₁ α) (m₂ : P σ₂ α) : Prop :=
+  ∀ s, I s → m₁ (h s) = Step.map h (m₂ s) ∧ ∀ a s', m₂ s = .next a s' → J s'
+
+theorem SimI.bind {σ₁ σ₂ α β : Type} {h : σ₂ → σ₁} {I J K : σ₂ → Prop} {m₁ : P σ₁ α} {m₂ : P σ₂ α}
+    {f₁ : α → P σ₁ β} {f₂ : α → P σ₂ β} (hm : SimI h I J m₁ m₂) (hf : ∀ a, SimI h J K (f₁ a) (f₂ a)) :
+    SimI h I K (m₁ >>= f₁) (m₂ >>= f₂) := by
+  intro s hs
+  obtain ⟨e, post⟩ := hm s hs
+  show P.bind m₁ f₁ (h s) = Step.map h (P.bind m₂ f₂ s) ∧ ∀ a s', P.bind m₂ f₂ s = .next a s' → K s'
+  unfold P.bind
+  rw [e]
+  cases hm2 : m₂ s with
+  | done r => exact ⟨rfl, fun a s' h' => by cases h'⟩
+  | next a s' => exact hf a s' (post a s' hm2)
+
+theorem SimI.pure {σ₁ σ₂ α : Type} {h : σ₂ → σ₁} {I : σ₂ → Prop} (a : α) :
+    SimI h I I (pure a : P σ₁ α) (pure a : P σ₂ α) := by
+  intro s hs
+  refine ⟨rfl, fun a' s' h' => ?_⟩
+  cases h'; exact hs
+
+theorem SimI.exitIf {σ₁ σ₂ : Type} {h : σ₂ → σ₁} {I : σ₂ → Prop} (c : Bool) (r : ArgvResult) :
+    SimI h I I (P.exitIf c r : P σ₁ Unit) (P.exitIf c r) := by
+  intro s hs
+  unfold P.exitIf
+  cases c
+  · exact ⟨rfl, fun a' s' h' => by cases h'; exact hs⟩
+  · exact ⟨rfl, fun a' s' h' => by cases h'⟩
+
+theorem SimI.unwrap {σ₁ σ₂ α : Type} {h : σ₂ → σ₁} {I : σ₂ → Prop} (o : Option α) :
+    SimI h I I (P.unwrap o : P σ₁ α) (P.unwrap o) := by
+  intro s hs
+  unfold P.unwrap
+  cases o
+  · exact ⟨rfl, fun a' s' h' => by cases h'⟩
+  · exact ⟨rfl, fun a' s' h' => by cases h'; exact hs⟩
+
+theorem SimI.ite {σ₁ σ₂ α : Type} {h : σ₂ → σ₁} {I J : σ₂ → Prop} (c : Prop) [Decidable c]
+    {a₁ b₁ : P σ₁ α} {a₂ b₂ : P σ₂ α} (ha : SimI h I J a₁ a₂) (hb : SimI h I J b₁ b₂) :
+    SimI h I J (if c then a₁ else b₁) (if c then a₂ else b₂) := by
+  by_cases hc : c <;> simp only [hc, if_true, if_false] <;> assumption
+
+/-- the group-level argument store without the well-formedness subtype -/
+def rawOps : Ops (List Group) where
+  isEmpty := List.isEmpty
+  contains := grpContains
+  optValue := grpOptValue
+
+/-- the keys of the four bounds options, in the order `parse_args` looks them up -/
+def boundsKeys : List Keys := [kFields, kCharacters, kBytes, kLines]
+
+theorem boundsKeys_used : ∀ k ∈ boundsKeys, k ∈ usedValKeys := by decide +kernel
+
+/-- the value is invisible to the lookups of `-f`, `-c`, `-b`, `-l`: it is none of `-f`, `--fields`, …
+    and starts with none of `-f`, `--fields=`, … (e.g. `-1=hello`, `-2:-1`) -/
+def quietVal (v : Arg) : Bool :=
+  missesVal kFields v && missesVal kCharacters v && missesVal kBytes v && missesVal kLines v
+
+theorem quietVal_miss {v : Arg} (hq : quietVal v = true) : ∀ k ∈ boundsKeys, missesVal k v = true := by
+  intro k hk
+  simp only [quietVal, Bool.and_eq_true] at hq
+  simp only [boundsKeys, List.mem_cons, List.not_mem_nil, or_false] at hk
+  rcases hk with rfl | rfl | rfl | rfl
+  · exact hq.1.1.1
+  · exact hq.1.1.2
+  · exact hq.1.2
+  · exact hq.2
+
+/-- canonical, except that the value of an option of `S` may start with `-` when it is `quietVal` -/
+def Group.cleanB (S : List ValId) : Group → Bool
+  | .flag _ => true
+  | .opt i v => noDash v || (S.contains i && quietVal v)
+  | .extra a => noDash a
+
+def WFB (S : List ValId) (gs : List Group) : Prop :=
+  (gs.map Group.head).Nodup ∧ ∀ g ∈ gs, g.cleanB S = true
+
+instance (S : List ValId) (gs : List Group) : Decidable (WFB S gs) := by unfold WFB; infer_instance
+
+theorem Group.cleanB_nil (g : Group) : g.cleanB [] = g.clean := by
+  cases g <;> simp [Group.cleanB, Group.clean]
+
+theorem WFB.toWF {gs : List Group} (h : WFB [] gs) : WF gs :=
+  ⟨h.1, fun g hg => by rw [← g.cleanB_nil]; exact h.2 g hg⟩
+
+theorem WF.toWFB {gs : List Group} (h : WF gs) (S : List ValId) : WFB S gs := by
+  refine ⟨h.1, fun g hg => ?_⟩
+  have := h.2 g hg
+  cases g <;> simp_all [Group.cleanB, Group.clean]
+
+theorem WFB.filter {S : List ValId} {gs : List Group} (h : WFB S gs) (p : Group → Bool) : WFB S (gs.filter p) := by
+  refine ⟨?_, fun g hg => h.2 g (List.mem_filter.mp hg).1⟩
+  exact List.Nodup.sublist (List.Sublist.map _ List.filter_sublist) h.1
+
+theorem WFB.split {S : List ValId} {pre post : List Group} {g : Group} (h : WFB S (pre ++ g :: post)) :
+    (∀ g' ∈ pre, g'.head ≠ g.head) ∧ (∀ g' ∈ post, g'.head ≠ g.head) ∧
+      (∀ g' ∈ pre, g'.cleanB S = true) ∧ (∀ g' ∈ post, g'.cleanB S = true) := by
+  obtain ⟨hn, hc⟩ := h
+  simp only [List.map_append, List.map_cons, List.nodup_append, List.nodup_cons, List.mem_map,
+    List.mem_cons] at hn
+  refine ⟨?_, ?_, ?_, ?_⟩
+  · intro g' hg' heq
+    exact hn.2.2 _ ⟨g', hg', rfl⟩ _ (Or.inl rfl) heq
+  · intro g' hg' heq
+    exact hn.2.1.1 ⟨g', hg', heq⟩
+  · intro g' hg'; exact hc g' (by simp [hg'])
+  · intro g' hg'; exact hc g' (by simp [hg'])
+
+theorem group_miss_valB (k : Keys) (hk : k ∈ boundsKeys) {S : List ValId} (g : Group) (hc : g.cleanB S = true)
+    (hh : g.head ≠ k.first) : ∀ a ∈ g.render, missesVal k a = true := by
+  have hku := boundsKeys_used k hk
+  intro a ha
+  cases g with
+  | flag i =>
+    simp only [Group.render, List.mem_singleton] at ha; subst ha
+    exact tokens_miss_val k hku _ i.tok_mem hh
+  | opt i v =>
+    simp only [Group.render, List.mem_cons, List.not_mem_nil, or_false] at ha
+    rcases ha with rfl | rfl
+    · exact tokens_miss_val k hku _ i.tok_mem hh
+    · simp only [Group.cleanB, Bool.or_eq_true, Bool.and_eq_true] at hc
+      rcases hc with hc | ⟨-, hq⟩
+      · exact clean_miss_val k hku _ hc
+      · exact quietVal_miss hq k hk
+  | extra x =>
+    simp only [Group.render, List.mem_singleton] at ha; subst ha
+    exact clean_miss_val k hku _ hc
+
+theorem head_ne_of_valOf_noneB (k : Keys) (hk : k ∈ usedValKeys) {S : List ValId} (g : Group)
+    (hc : g.cleanB S = true) (h : g.valOf k = none) : g.head ≠ k.first := by
+  cases g with
+  | flag i => exact flag_tok_ne_val_key k hk i
+  | opt i v =>
+    simp only [Group.valOf] at h
+    split at h
+    · cases h
+    · rename_i hne; simpa [Group.head] using hne
+  | extra x => exact extra_head_ne k (List.mem_append_right _ hk) x hc
+
+/-- `opt_value_from_str` of a bounds option, on a command line whose bounds values may start with `-` -/
+theorem picoOptValue_renderB (k : Keys) (hk4 : k ∈ boundsKeys) (S : List ValId) (gs : List Group)
+    (hwf : WFB S gs) : picoOptValue k (render gs) = mapOptValue render (grpOptValue k gs) := by
+  have hk := boundsKeys_used k hk4
+  have hne : k.first ≠ [] := by
+    have := (keys_dash k (List.mem_append_right _ hk)).1
+    intro h; simp [h] at this
+  by_cases h : ∃ g ∈ gs, (g.valOf k).isSome = true
+  · obtain ⟨g, hg, hgk⟩ := h
+    obtain ⟨pre, post, rfl⟩ := List.append_of_mem hg
+    obtain ⟨hpre, hpost, cpre, cpost⟩ := hwf.split
+    cases g with
+    | flag i => simp [Group.valOf] at hgk
+    | extra x => simp [Group.valOf] at hgk
+    | opt i v =>
+      have hik : i.tok = k.first := by
+        simp only [Group.valOf] at hgk
+        split at hgk
+        · rename_i hh; simpa using hh
+        · simp at hgk
+      have hval : (Group.opt i v).valOf k = some v := by simp [Group.valOf, hik]
+      have e1 : render (pre ++ Group.opt i v :: post) = render pre ++ k.first :: v :: render post := by
+        simp [render_append, render_cons, Group.render, hik]
+      have hA : ∀ a ∈ render pre, (a == k.first) = false := by
+        intro a ha
+        obtain ⟨g', hg', hag'⟩ := mem_render.mp ha
+        have hh : g'.head ≠ k.first := by rw [← hik]; exact hpre g' hg'
+        have := group_miss_valB k hk4 g' (cpre g' hg') hh a hag'
+        simp only [missesVal, Bool.and_eq_true, Bool.not_eq_true'] at this
+        exact this.1.1
+      rw [e1, picoOptValue_hit k _ _ v hne hA]
+      have n1 : ∀ g' ∈ pre, g'.valOf k = none := fun g' hg' =>
+        valOf_of_head_ne k g' (by rw [← hik]; exact hpre g' hg')
+      have n2 : ∀ g' ∈ post, g'.valOf k = none := fun g' hg' =>
+        valOf_of_head_ne k g' (by rw [← hik]; exact hpost g' hg')
+      simp only [grpOptValue]
+      rw [findSome?_mid _ pre post _ v n1 hval]
+      rw [filter_mid _ pre post _ (fun g' hg' => by simp [n1 g' hg']) (fun g' hg' => by simp [n2 g' hg'])
+        (by simp [hval])]
+      simp [mapOptValue, render_append]
+  · have hall : ∀ g ∈ gs, g.valOf k = none := by
+      intro g hg
+      cases hq : g.valOf k with
+      | none => rfl
+      | some v => exact absurd ⟨g, hg, by simp [hq]⟩ h
+    have hmiss : ∀ a ∈ render gs, missesVal k a = true := by
+      intro a ha
+      obtain ⟨g, hg, hag⟩ := mem_render.mp ha
+      exact group_miss_valB k hk4 g (hwf.2 g hg) (head_ne_of_valOf_noneB k hk g (hwf.2 g hg) (hall g hg)) a hag
+    rw [picoOptValue_miss k _ hmiss]
+    simp only [grpOptValue]
+    rw [List.findSome?_eq_none_iff.mpr hall]
+    rfl
+
+/-- once the option `i` is consumed, no value of `i` is left -/
+theorem Group.cleanB_drop {i : ValId} {S : List ValId} {g : Group} (hc : g.cleanB (i :: S) = true)
+    (h : g.valOf i.keys = none) : g.cleanB S = true := by
+  cases g with
+  | flag j => rfl
+  | extra x => exact hc
+  | opt j v =>
+    have hji : j ≠ i := by
+      intro e; subst e
+      simp [Group.valOf, ValId.tok] at h
+    simp only [Group.cleanB, List.contains_cons, Bool.or_eq_true, Bool.and_eq_true, beq_iff_eq] at hc ⊢
+    rcases hc with hc | ⟨hc | hc, hq⟩
+    · exact Or.inl hc
+    · exact absurd hc hji
+    · exact Or.inr ⟨hc, hq⟩
+
+theorem WFB.drop {i : ValId} {S : List ValId} {gs : List Group} (hwf : WFB (i :: S) gs) :
+    WFB S (gs.filter fun g => (g.valOf i.keys).isNone) := by
+  refine ⟨(hwf.filter _).1, fun g hg => ?_⟩
+  obtain ⟨hg1, hg2⟩ := List.mem_filter.mp hg
+  exact Group.cleanB_drop (hwf.2 g hg1) (by simpa using hg2)
+
+theorem WFB.drop_none {i : ValId} {S : List ValId} {gs : List Group} (hwf : WFB (i :: S) gs)
+    (h : gs.findSome? (Group.valOf i.keys) = none) : WFB S gs :=
+  ⟨hwf.1, fun g hg => Group.cleanB_drop (hwf.2 g hg) (List.findSome?_eq_none_iff.mp h g hg)⟩
+
+/-- the lookup of a bounds option: the values of the options of `S` may still start with `-` -/
+theorem SimI.valueB {α : Type} (i : ValId) (hi : i.keys ∈ boundsKeys) (S : List ValId) (f : Arg → Res α) :
+    SimI render (WFB (i :: S)) (WFB S) (picoOps.value i.keys f) (rawOps.value i.keys f) := by
+  intro gs hwf
+  have e : picoOps.optValue i.keys (render gs) = mapOptValue render (grpOptValue i.keys gs) :=
+    picoOptValue_renderB i.keys hi _ gs hwf
+  have e2 : rawOps.optValue i.keys gs = grpOptValue i.keys gs := rfl
+  simp only [Ops.value, e, e2]
+  unfold grpOptValue
+  cases hv : gs.findSome? (Group.valOf i.keys) with
+  | none =>
+    refine ⟨rfl, fun a s' h' => ?_⟩
+    cases h'
+    exact hwf.drop_none hv
+  | some v =>
+    simp only [mapOptValue]
+    cases f v with
+    | ok a =>
+      refine ⟨rfl, fun a s' h' => ?_⟩
+      cases h'
+      exact hwf.drop
+    | fail => exact ⟨rfl, fun a s' h' => by cases h'⟩
+    | panic => exact ⟨rfl, fun a s' h' => by cases h'⟩
+
+/-! after the four bounds lookups the command line is canonical in the strict sense -/
+
+theorem SimI.test {I : List Group → Prop} :
+    SimI render I I (P.test picoOps.isEmpty) (P.test rawOps.isEmpty) := by
+  intro gs hs
+  refine ⟨?_, fun a s' h' => ?_⟩
+  · show Step.next (render gs).isEmpty (render gs) = Step.next gs.isEmpty (render gs)
+    rw [render_isEmpty]
+  · cases h'; exact hs
+
+theorem SimI.flagLate (k : Keys) (hk : k ∈ usedFlagKeys) :
+    SimI render (WFB []) (WFB []) (picoOps.flag k) (rawOps.flag k) := by
+  intro gs hs
+  have e : picoOps.contains k (render gs) = ((grpContains k gs).1, render (grpContains k gs).2) :=
+    picoContains_render k hk gs hs.toWF
+  have e2 : rawOps.contains k gs = grpContains k gs := rfl
+  simp only [Ops.flag, e, e2, Step.map]
+  refine ⟨trivial, fun a s' h' => ?_⟩
+  cases h'
+  exact hs.filter _
+
+theorem SimI.valueLate {α : Type} (k : Keys) (hk : k ∈ usedValKeys) (f : Arg → Res α) :
+    SimI render (WFB []) (WFB []) (picoOps.value k f) (rawOps.value k f) := by
+  intro gs hs
+  have e : picoOps.optValue k (render gs) = mapOptValue render (grpOptValue k gs) :=
+    picoOptValue_render k hk gs hs.toWF
+  have e2 : rawOps.optValue k gs = grpOptValue k gs := rfl
+  simp only [Ops.value, e, e2]
+  unfold grpOptValue
+  cases hv : gs.findSome? (Group.valOf k) with
+  | none =>
+    refine ⟨rfl, fun a s' h' => ?_⟩
+    cases h'; exact hs
+  | some v =>
+    simp only [mapOptValue]
+    cases f v with
+    | ok a =>
+      refine ⟨rfl, fun a s' h' => ?_⟩
+      cases h'
+      exact hs.filter _
+    | fail => exact ⟨rfl, fun a s' h' => by cases h'⟩
+    | panic => exact ⟨rfl, fun a s' h' => by cases h'⟩
+
+theorem SimI.fallbackLate :
+    SimI render (WFB []) (WFB []) picoOps.fallbackOob rawOps.fallbackOob := by
+  intro gs hs
+  have e : picoOps.optValue kFallback (render gs) = mapOptValue render (grpOptValue kFallback gs) :=
+    picoOptValue_render kFallback (by decide) gs hs.toWF
+  have e2 : rawOps.optValue kFallback gs = grpOptValue kFallback gs := rfl
+  have e3 : picoOps.contains kFallbackEq (render gs) =
+      ((grpContains kFallbackEq gs).1, render (grpContains kFallbackEq gs).2) :=
+    picoContains_render kFallbackEq (by decide) gs hs.toWF
+  have e4 : rawOps.contains kFallbackEq gs = grpContains kFallbackEq gs := rfl
+  simp only [Ops.fallbackOob, e, e2, e3, e4]
+  unfold grpOptValue
+  cases hv : gs.findSome? (Group.valOf kFallback) with
+  | none =>
+    refine ⟨rfl, fun a s' h' => ?_⟩
+    cases h'; exact hs
+  | some v =>
+    refine ⟨rfl, fun a s' h' => ?_⟩
+    cases h'
+    exact hs.filter _
+
+/-- **`parse_args` over `pico_args` follows `parse_args` over the option groups** from a command line
+    whose BOUNDS values may start with `-`: they are consumed before any flag is looked up. -/
+theorem simB_parseWith (regexOk : Arg → Bool) :
+    SimI render (WFB [.f, .c, .b, .l]) (WFB []) (parseWith picoOps regexOk) (parseWith rawOps regexOk) := by
+  unfold Tuc.parseWith
+  refine SimI.bind SimI.test fun _ => SimI.bind (SimI.exitIf _ _) fun _ =>
+    SimI.bind (SimI.valueB .f (by decide) _ _) fun _ => SimI.bind (SimI.valueB .c (by decide) _ _) fun _ =>
+    SimI.bind (SimI.valueB .b (by decide) _ _) fun _ => SimI.bind (SimI.valueB .l (by decide) _ _) fun _ => ?_
+  repeat' first
+    | exact SimI.pure _
+    | exact SimI.exitIf _ _
+    | exact SimI.unwrap _
+    | exact SimI.test
+    | exact SimI.fallbackLate
+    | exact SimI.flagLate _ (by decide)
+    | exact SimI.valueLate _ (by decide) _
+    | apply SimI.ite
+    | apply SimI.bind
+    | intro _
+    | dsimp only
+
+theorem hom_table_raw : Hom tableOps rawOps tableOf where
+  isEmpty s := tableOf_isEmpty s
+  contains k _ s := by
+    show (match flagIdOf k with
+      | some i => ((tableOf s).flag i, (tableOf s).clearFlag i)
+      | none => (false, tableOf s)) = _
+    simp only [rawOps, grpContains]
+    cases h : flagIdOf k with
+    | some i =>
+      have e : Group.isFlagOf k = fun g => g == Group.flag i := funext (isFlagOf_eq (flagIdOf_some h))
+      simp only [e, tableOf_filter_flag]
+      rfl
+    | none =>
+      have e : Group.isFlagOf k = fun _ => false := by
+        funext g; cases g with
+        | flag i => exact flagIdOf_none h i
+        | opt i v => rfl
+        | extra x => rfl
+      have e1 : s.filter (fun _ => true) = s := List.filter_eq_self.mpr (fun _ _ => rfl)
+      have e2 : (s.any fun _ => false) = false := by rw [List.any_eq_false]; intro _ _; simp
+      simp only [e, Bool.not_false, e1, e2]
+  optValue k _ s := by
+    show (match valIdOf k with
+      | some i =>
+        match (tableOf s).val i with
+        | some v => Except.ok (some (v, (tableOf s).clearVal i))
+        | none => .ok none
+      | none => .ok none) = _
+    simp only [rawOps, grpOptValue]
+    cases h : valIdOf k with
+    | some i =>
+      have e : Group.valOf k = Group.optVal i := funext (valOf_eq (valIdOf_some h))
+      simp only [e]
+      show (match s.findSome? (Group.optVal i) with
+        | some v => Except.ok (some (v, (tableOf s).clearVal i))
+        | none => .ok none) = _
+      cases s.findSome? (Group.optVal i) with
+      | none => rfl
+      | some v => simp only [mapOptValue, tableOf_filter_val]
+    | none =>
+      have e : Group.valOf k = fun _ => none := by
+        funext g; cases g with
+        | flag i => rfl
+        | opt i v => simp [Group.valOf, valIdOf_none h i]
+        | extra x => rfl
+      have e2 : s.findSome? (fun _ => (none : Option Arg)) = none := by
+        rw [List.findSome?_eq_none_iff]; intro _ _; rfl
+      simp only [e, e2, mapOptValue]
+
+/-- **`parseArgv_render` for bounds values that start with `-`.** -/
+theorem parseArgv_renderB (regexOk : Arg → Bool) (gs : List Group) (hwf : WFB [.f, .c, .b, .l] gs) :
+    parseArgv regexOk (render gs) = parseTable regexOk (tableOf gs) := by
+  have h1 := (simB_parseWith regexOk gs hwf).1
+  have h2 := hom_table_raw.parseWith regexOk gs
+  simp only [parseArgv, parseTable] at *
+  rw [h1, h2, Step.result_map, Step.result_map]
+
+theorem parseArgv_canonB (regexOk : Arg → Bool) (gs : List Group) (hwf : WFB [.f, .c, .b, .l] gs)
+    (hs : Sensible regexOk (tableOf gs)) :
+    parseArgv regexOk (render gs) = tableAnswer (tableOf gs) := by
+  rw [parseArgv_renderB regexOk gs hwf, parseTable_eq regexOk _ hs]
+
+
+/-! ### the precedence of the help over the bounds, on the table -/
+
+theorem tvalue_reject {α : Type} (k : Keys) (i : ValId) (h : valIdOf k = some i) (f : Arg → Res α)
+    (cont : Option α → P Table ArgvResult) (t : Table) (v : Arg) (hv : t.val i = some v)
+    (hbad : (f v).isOk = false) (hp : f v ≠ .panic) :
+    ((tableOps.value k f >>= cont) t).result = .reject := by
+  show (P.bind _ _ _).result = _
+  cases hf : f v with
+  | ok a => rw [hf] at hbad; cases hbad
+  | fail => simp only [P.bind, Ops.value, tableOps, h, hv, hf, Step.result_done]
+  | panic => exact absurd hf hp
+
+theorem tvalue_through {α : Type} (k : Keys) (i : ValId) (h : valIdOf k = some i) (f : Arg → Res α)
+    (hp : ∀ v, f v ≠ .panic) (cont : Option α → P Table ArgvResult) (t : Table)
+    (hc : ∀ a t', (∀ j, j ≠ i → t'.val j = t.val j) → (cont a t').result = .reject) :
+    ((tableOps.value k f >>= cont) t).result = .reject := by
+  show (P.bind _ _ _).result = _
+  cases hv : t.val i with
+  | none =>
+    simp only [P.bind, Ops.value, tableOps, h, hv]
+    exact hc none t (fun _ _ => rfl)
+  | some v =>
+    cases hf : f v with
+    | ok a =>
+      simp only [P.bind, Ops.value, tableOps, h, hv, hf]
+      exact hc (some a) (t.clearVal i) (fun j hj => by simp [hj])
+    | fail => simp only [P.bind, Ops.value, tableOps, h, hv, hf, Step.result_done]
+    | panic => exact absurd hf (hp v)
+
+/-- **A bounds value that does not parse is reported (exit 1), whether or not `-h` is given.** -/
+theorem parseTable_badBounds (regexOk : Arg → Bool) (t : Table) (i : ValId) (hi : i ∈ [ValId.f, .c, .b, .l])
+    (v : Arg) (hv : t.val i = some v) (hbad : (boundsArg v).isOk = false) :
+    parseTable regexOk t = .reject := by
+  have hne : t.isEmpty = false := by
+    have : allValIds.all (fun j => (t.val j).isNone) = false := by
+      rw [List.all_eq_false]
+      exact ⟨i, i.mem_all, by simp [hv]⟩
+    simp [Table.isEmpty, this]
+  unfold parseTable parseWith
+  simp only [ttest_bind, exitIf_bind, hne, Bool.false_eq_true, if_false]
+  simp only [List.mem_cons, List.not_mem_nil, or_false] at hi
+  rcases hi with rfl | rfl | rfl | rfl
+  · exact tvalue_reject _ _ vid_f _ _ _ v hv hbad (boundsArg_ne_panic v)
+  · refine tvalue_through _ _ vid_f _ boundsArg_ne_panic _ _ fun _ t1 h1 => ?_
+    exact tvalue_reject _ _ vid_c _ _ _ v (by rw [h1 _ (by decide)]; exact hv) hbad (boundsArg_ne_panic v)
+  · refine tvalue_through _ _ vid_f _ boundsArg_ne_panic _ _ fun _ t1 h1 => ?_
+    refine tvalue_through _ _ vid_c _ boundsArg_ne_panic _ _ fun _ t2 h2 => ?_
+    exact tvalue_reject _ _ vid_b _ _ _ v (by rw [h2 _ (by decide), h1 _ (by decide)]; exact hv) hbad
+      (boundsArg_ne_panic v)
+  · refine tvalue_through _ _ vid_f _ boundsArg_ne_panic _ _ fun _ t1 h1 => ?_
+    refine tvalue_through _ _ vid_c _ boundsArg_ne_panic _ _ fun _ t2 h2 => ?_
+    refine tvalue_through _ _ vid_b _ boundsArg_ne_panic _ _ fun _ t3 h3 => ?_
+    exact tvalue_reject _ _ vid_l _ _ _ v
+      (by rw [h3 _ (by decide), h2 _ (by decide), h1 _ (by decide)]; exact hv) hbad (boundsArg_ne_panic v)
+
+/-- **`-h` prints the help when the bounds values given (if any) parse**: the help lookup comes
+    after `-f`, `-c`, `-b`, `-l` have been consumed, and before everything else. -/
+theorem parseTable_help (regexOk : Arg → Bool) (t : Table) (hh : t.flag .help = true)
+    (hb : ∀ i ∈ [ValId.f, .c, .b, .l], ∀ v, t.val i = some v → (boundsArg v).isOk = true) :
+    parseTable regexOk t = .help := by
+  unfold parseTable parseWith
+  simp only [ttest_bind, exitIf_bind]
+  rw [tvalue_bind _ _ vid_f _ _ _ (by intro v hv; exact hb .f (by decide) v hv)]
+  rw [tvalue_bind _ _ vid_c _ _ _ (by intro v hv; simp at hv; exact hb .c (by decide) v hv)]
+  rw [tvalue_bind _ _ vid_b _ _ _ (by intro v hv; simp at hv; exact hb .b (by decide) v hv)]
+  rw [tvalue_bind _ _ vid_l _ _ _ (by intro v hv; simp at hv; exact hb .l (by decide) v hv)]
+  simp only [tflag_bind _ _ fid_help, exitIf_bind, Table.clearVal_flag, hh, if_true]
+  cases t.isEmpty <;> rfl
+
+theorem tableOf_val_of_memB {S : List ValId} {gs : List Group} (hwf : WFB S gs) (i : ValId) (v : Arg)
+    (h : Group.opt i v ∈ gs) : (tableOf gs).val i = some v := by
+  obtain ⟨pre, post, rfl⟩ := List.append_of_mem h
+  obtain ⟨hpre, -, -, -⟩ := hwf.split
+  apply findSome?_mid
+  · intro g hg
+    cases g with
+    | flag j => rfl
+    | extra x => rfl
+    | opt j w =>
+      have : j.tok ≠ i.tok := hpre _ hg
+      have : j ≠ i := fun e => this (by rw [e])
+      simp [Group.optVal, this]
+  · simp [Group.optVal]
+
+theorem mem_of_tableOf_val {gs : List Group} {i : ValId} {v : Arg} (h : (tableOf gs).val i = some v) :
+    Group.opt i v ∈ gs := by
+  obtain ⟨g, hg, hv⟩ := List.exists_of_findSome?_eq_some h
+  cases g with
+  | flag j => simp [Group.optVal] at hv
+  | extra x => simp [Group.optVal] at hv
+  | opt j w =>
+    simp only [Group.optVal] at hv
+    split at hv
+    · rename_i e; subst e; cases hv; exact hg
+    · cases hv
+
+/-- `tuc … -f VALUE … -h …` with a `VALUE` that is no bounds list: exit 1, not the help — on a
+    canonical command line, the bounds values possibly starting with `-` -/
+theorem parseArgv_canonB_badBounds (regexOk : Arg → Bool) (gs : List Group) (hwf : WFB [.f, .c, .b, .l] gs)
+    (i : ValId) (hi : i ∈ [ValId.f, .c, .b, .l]) (v : Arg) (hmem : Group.opt i v ∈ gs)
+    (hbad : (boundsArg v).isOk = false) : parseArgv regexOk (render gs) = .reject := by
+  rw [parseArgv_renderB regexOk gs hwf]
+  exact parseTable_badBounds regexOk _ i hi v (tableOf_val_of_memB hwf i v hmem) hbad
+
+/-- `tuc … -h …` prints the help when the bounds values given parse, whatever their letters -/
+theorem parseArgv_canonB_help (regexOk : Arg → Bool) (gs : List Group) (hwf : WFB [.f, .c, .b, .l] gs)
+    (hh : Group.flag .help ∈ gs)
+    (hb : ∀ i ∈ [ValId.f, .c, .b, .l], ∀ v, Group.opt i v ∈ gs → (boundsArg v).isOk = true) :
+    parseArgv regexOk (render gs) = .help := by
+  rw [parseArgv_renderB regexOk gs hwf]
+  refine parseTable_help regexOk _ ?_ (fun i hi v hv => hb i hi v (mem_of_tableOf_val hv))
+  exact List.any_eq_true.mpr ⟨_, hh, by simp⟩
+
+/-- without `-h` (and `-V`), every value parsing: never the help, whatever the letters of the bounds -/
+theorem parseArgv_canonB_ne_help (regexOk : Arg → Bool) (gs : List Group) (hwf : WFB [.f, .c, .b, .l] gs)
+    (hs : Sensible regexOk (tableOf gs)) : parseArgv regexOk (render gs) ≠ .help := by
+  rw [parseArgv_canonB regexOk gs hwf hs, tableAnswer]
+  split <;> simp
+
+theorem parseArgv_canonB_decision (regexOk : Arg → Bool) (bagOf : Arg → RegexBag) (segs : List Bytes)
+    (gs : List Group) (hwf : WFB [.f, .c, .b, .l] gs) (hs : Sensible regexOk (tableOf gs)) :
+    rejectsUpFront bagOf segs (parseArgv regexOk (render gs)) ↔ decision (flagsOf (tableOf gs)) = .reject := by
+  rw [parseArgv_canonB regexOk gs hwf hs]
+  exact rejectsUpFront_tableAnswer regexOk bagOf segs _ hs
+
+/-! ### the answer depends on a bounds value only through its parse -/
+
+def optRes {α : Type} : Option (Res α) → Res (Option α)
+  | none => .ok none
+  | some (.ok a) => .ok (some a)
+  | some .fail => .fail
+  | some .panic => .panic
+
+theorem tvalue_bind_map {α β : Type} (k : Keys) (i : ValId) (h : valIdOf k = some i) (f : Arg → Res α)
+    (cont : Option α → P Table β) (t : Table) :
+    (tableOps.value k f >>= cont) t =
+      match optRes ((t.val i).map f) with
+      | .ok o => cont o (t.clearVal i)
+      | .fail => .done .reject
+      | .panic => .done .panic := by
+  show P.bind _ _ _ = _
+  cases hv : t.val i with
+  | none => simp [P.bind, Ops.value, tableOps, h, hv, optRes, Table.clearVal_of_none t i hv]
+  | some v => cases hf : f v <;> simp [P.bind, Ops.value, tableOps, h, hv, hf, optRes]
+
+/-- **`parse_args` looks at the values of `-f -c -b -l` only through `UserBoundsList::from_str`**:
+    two tables that differ in the text of bounds values with the same parse get the same answer
+    (in particular the letters of a bounds value cannot turn the command into `--help`). -/
+theorem parseTable_congr (regexOk : Arg → Bool) (t t' : Table) (hflag : t.flag = t'.flag)
+    (hextra : t.extra = t'.extra) (hval : ∀ j, j ∉ [ValId.f, .c, .b, .l] → t.val j = t'.val j)
+    (hb : ∀ j ∈ [ValId.f, .c, .b, .l], (t.val j).map boundsArg = (t'.val j).map boundsArg) :
+    parseTable regexOk t = parseTable regexOk t' := by
+  have hclear : (((t.clearVal .f).clearVal .c).clearVal .b).clearVal .l =
+      (((t'.clearVal .f).clearVal .c).clearVal .b).clearVal .l := by
+    cases t with
+    | mk fl vl ex =>
+      cases t' with
+      | mk fl' vl' ex' =>
+        simp only at hflag hextra hval
+        subst hflag; subst hextra
+        simp only [Table.clearVal, Table.mk.injEq, true_and, and_true]
+        funext j
+        by_cases hj : j ∈ [ValId.f, .c, .b, .l]
+        · simp only [List.mem_cons, List.not_mem_nil, or_false] at hj
+          rcases hj with rfl | rfl | rfl | rfl <;> simp
+        · have := hval j hj
+          simp only [List.mem_cons, List.not_mem_nil, or_false, not_or] at hj
+          simp [hj, this]
+  have hn : ∀ j, (t.val j).isNone = (t'.val j).isNone := by
+    intro j
+    by_cases hj : j ∈ [ValId.f, .c, .b, .l]
+    · have := congrArg Option.isNone (hb j hj)
+      simpa using this
+    · rw [hval j hj]
+  have hemp : t.isEmpty = t'.isEmpty := by simp only [Table.isEmpty, hflag, hextra, hn]
+  have hf := hb .f (by decide)
+  have hc := hb .c (by decide)
+  have hb' := hb .b (by decide)
+  have hl := hb .l (by decide)
+  unfold parseTable parseWith
+  simp only [ttest_bind, exitIf_bind, tvalue_bind_map _ _ vid_f, tvalue_bind_map _ _ vid_c,
+    tvalue_bind_map _ _ vid_b, tvalue_bind_map _ _ vid_l, Table.clearVal_val, reduceCtorEq, if_false,
+    hf, hc, hb', hl, hclear, hemp]
+
+theorem tableOf_swap_flag (pre post : List Group) (i : ValId) (v v' : Arg) :
+    (tableOf (pre ++ Group.opt i v :: post)).flag = (tableOf (pre ++ Group.opt i v' :: post)).flag := by
+  funext j
+  have e : ∀ w, (Group.opt i w == Group.flag j) = false := fun w => beq_eq_false_iff_ne.mpr (by simp)
+  simp [tableOf, List.any_append, e]
+
+theorem tableOf_swap_extra (pre post : List Group) (i : ValId) (v v' : Arg) :
+    (tableOf (pre ++ Group.opt i v :: post)).extra = (tableOf (pre ++ Group.opt i v' :: post)).extra := by
+  simp [tableOf, List.any_append, Group.isExtra]
+
+theorem tableOf_swap_val (pre post : List Group) (i j : ValId) (hj : j ≠ i) (v v' : Arg) :
+    (tableOf (pre ++ Group.opt i v :: post)).val j = (tableOf (pre ++ Group.opt i v' :: post)).val j := by
+  simp [tableOf, List.findSome?_append, List.findSome?_cons, Group.optVal, Ne.symm hj]
+
+/-- **The letters of a bounds value do not matter**: on a canonical command line — the values of
+    `-f -c -b -l` possibly starting with `-` — two bounds values with the same parse get the same
+    answer of `parse_args`. -/
+theorem parseArgv_bounds_letters (regexOk : Arg → Bool) (pre post : List Group) (i : ValId)
+    (hi : i ∈ [ValId.f, .c, .b, .l]) (v v' : Arg)
+    (hwf : WFB [.f, .c, .b, .l] (pre ++ Group.opt i v :: post))
+    (hwf' : WFB [.f, .c, .b, .l] (pre ++ Group.opt i v' :: post)) (h : boundsArg v = boundsArg v') :
+    parseArgv regexOk (render (pre ++ Group.opt i v :: post)) =
+      parseArgv regexOk (render (pre ++ Group.opt i v' :: post)) := by
+  rw [parseArgv_renderB regexOk _ hwf, parseArgv_renderB regexOk _ hwf']
+  apply parseTable_congr
+  · exact tableOf_swap_flag pre post i v v'
+  · exact tableOf_swap_extra pre post i v v'
+  · intro j hj
+    exact tableOf_swap_val pre post i j (fun e => hj (e ▸ hi)) v v'
+  · intro j _
+    by_cases e : j = i
+    · subst e
+      rw [tableOf_val_of_memB hwf j v (by simp), tableOf_val_of_memB hwf' j v' (by simp)]
+      simp [h]
+    · rw [tableOf_swap_val pre post i j e v v']
+
+/-! ### the repaired command lines, by computation -/
+
+/-- the bounds `-1=hello`: the last field, `hello` when there is none -/
+def lastOrHello : UserBoundsList :=
+  ⟨[.bound { l := .some (-1), r := .some (-1), isLast := true, fallback := some (utf8 ['h', 'e', 'l', 'l', 'o']) }],
+    .some (-1)⟩
+
+theorem boundsArg_lastOrHello : boundsArg ['-', '1', '=', 'h', 'e', 'l', 'l', 'o'] = .ok lastOrHello := by
+  decide +kernel
+
+/-- `tuc -d , -f -1=hello` cuts (before the repair: the `h` of `hello` was taken for `-h`) -/
+theorem parseArgv_dash_value_f (regexOk : Arg → Bool) :
+    parseArgv regexOk [['-', 'd'], [','], ['-', 'f'], ['-', '1', '=', 'h', 'e', 'l', 'l', 'o']] =
+      .run { delimiter := [44], bounds := lastOrHello } false none := rfl
+
+/-- … wherever the value stands, and for `-c`, `-b`, `-l` alike -/
+theorem parseArgv_dash_value_f_first (regexOk : Arg → Bool) :
+    parseArgv regexOk [['-', 'f'], ['-', '1', '=', 'h', 'e', 'l', 'l', 'o'], ['-', 'd'], [',']] =
+      .run { delimiter := [44], bounds := lastOrHello } false none := rfl
+
+theorem parseArgv_dash_value_b (regexOk : Arg → Bool) :
+    parseArgv regexOk [['-', 'b'], ['-', '1', '=', 'h', 'e', 'l', 'l', 'o']] =
+      .run { delimiter := [], bounds := lastOrHello, boundsType := .bytes } false none := rfl
+
+theorem parseArgv_dash_value_l (regexOk : Arg → Bool) :
+    parseArgv regexOk [['-', 'l'], ['-', '1', '=', 'h', 'e', 'l', 'l', 'o']] =
+      .run { delimiter := [10], bounds := lastOrHello, boundsType := .lines, join := true } false none := rfl
+
+theorem parseArgv_dash_value_c :
+    parseArgv (fun _ => true) [['-', 'c'], ['-', '1', '=', 'h', 'e', 'l', 'l', 'o']] =
+      .run { delimiter := [], bounds := lastOrHello, boundsType := .characters, replaceDelimiter := some [],
+             join := true } false (some charsRegexText) := rfl
+
+/-- `tuc -h`, `tuc --help`, `tuc -d : -h`, `tuc -f 1 -h`, `tuc -gh` still print the help -/
+theorem parseArgv_h (regexOk : Arg → Bool) : parseArgv regexOk [['-', 'h']] = .help := rfl
+theorem parseArgv_help (regexOk : Arg → Bool) : parseArgv regexOk [['-', '-', 'h', 'e', 'l', 'p']] = .help := rfl
+theorem parseArgv_d_h (regexOk : Arg → Bool) : parseArgv regexOk [['-', 'd'], [':'], ['-', 'h']] = .help := rfl
+theorem parseArgv_f_h (regexOk : Arg → Bool) : parseArgv regexOk [['-', 'f'], ['1'], ['-', 'h']] = .help := rfl
+theorem parseArgv_gh (regexOk : Arg → Bool) : parseArgv regexOk [['-', 'g', 'h']] = .help := rfl
+
+/-- `tuc -f 0 -h` (`0` is no bound) and `tuc -h -f` (no value) are now errors: exit 1, no help -/
+theorem parseArgv_f0_h (regexOk : Arg → Bool) : parseArgv regexOk [['-', 'f'], ['0'], ['-', 'h']] = .reject := rfl
+theorem parseArgv_h_f (regexOk : Arg → Bool) : parseArgv regexOk [['-', 'h'], ['-', 'f']] = .reject := rfl
+
+/-- the same through the general theorem: the hypotheses of `parseArgv_canonB` are satisfiable -/
+example : parseArgv (fun _ => true) (render [.opt .d [','], .opt .f ['-', '1', '=', 'h', 'e', 'l', 'l', 'o']]) =
+    tableAnswer (tableOf [.opt .d [','], .opt .f ['-', '1', '=', 'h', 'e', 'l', 'l', 'o']]) :=
+  parseArgv_canonB _ _ (by decide +kernel)
+    ⟨by decide +kernel, by decide +kernel, by decide +kernel, by decide +kernel, by decide +kernel,
+      by simp [tableOf, Group.optVal], by simp [tableOf, Group.optVal], by simp, rfl⟩
 end Tuc
